@@ -64,6 +64,16 @@ def _run(h, stepwise):
     return [], sc.cfg
 
 
+def replay_any(rec, ctx):
+    if rec.get("part") == "notify":
+        from . import c01_notify
+        return c01_notify.replay(rec, {"callbacks": rec["callbacks"]})
+    if rec.get("part") == "notifylist":
+        from . import c01_notify
+        return c01_notify.replay_list(rec, None)
+    return replay(rec, ctx)
+
+
 def replay(rec, ctx):
     h = rec["h"]
     viol, cfg = _run(h, False)
@@ -181,8 +191,9 @@ def run(v):
             v.violation(x["sig"], x["detail"], r)
     v.add_cases(len(edges), keys=[json.dumps(r["h"]) for r in edges])
     v.sample({"history": edges[len(edges) // 3]["h"], "final_cfg_differs_from_default_in": {k: x for k, x in edges[len(edges) // 3]["cfg"].items() if x != 1}})
-    from . import c01_trace
+    from . import c01_trace, c01_notify
     c01_trace.run(v)
+    c01_notify.run_part(v)
     v.notes["edges_per_last_action"] = ops
     v.notes["histories_with_violation"] = len(failed)
     v.assumptions += ["mock atomic data with constant pairwise-distinct rates; two concrete values per parameter (mbt/scene.py); sensitivity audit passed for every parameter",
@@ -203,6 +214,7 @@ def selftest():
         bad = ["configuration bookkeeping mismatch"]
     # staleness oracle: compare a scene in the default configuration with the fresh observations of another one
     stale = _diff(S.observe(S.build(S.DEFAULT)), fresh_obs(dict(S.DEFAULT, P_comp=2)))
-    ok = not good and bool(bad) and bool(stale)
+    from . import c01_notify
+    ok = not good and bool(bad) and bool(stale) and c01_notify.selftest()
     print("C01 selftest:", "ok" if ok else "FAILED", good[:1], str(bad)[:80], stale[:3])
     return 0 if ok else 2
